@@ -139,6 +139,9 @@ def make(rng, cls_name):
             head += ".from_(%s)" % s.var
         head += ".set(%s, %s)" % (t0.col(1), others[0].col(1))
         head += ".where(%s == %s)" % (t0.col(0), others[0].col(0))
+        if cls_name == "postgresql" and rng.random() < 0.7:
+            # RETURNING a column given by name: it is a column of the UPDATE target, whatever else is in scope
+            head += ".returning('c_%s_2')" % t0.var
         lines.append("q = %s" % head)
     elif kind == "update_join":
         t0 = next((s for s in srcs if s.kind == "table"), None)
@@ -149,6 +152,8 @@ def make(rng, cls_name):
         for s in others:
             head += ".join(%s).on(%s == %s)" % (s.var, t0.col(0), s.col(0))
         head += ".set(%s, %s).where(%s > 1)" % (t0.col(1), others[0].col(1), others[-1].col(2))
+        if cls_name == "postgresql" and rng.random() < 0.7:
+            head += ".returning('c_%s_2', %s)" % (t0.var, t0.col(0))
         lines.append("q = %s" % head)
     else:
         # correlated sub-query: the inner block has ONE source of its own and refers to the outer one
